@@ -696,13 +696,14 @@ class VTF:
                 for cube_or_depth in depth_seq:
                     self._frames[frame, cube_or_depth, mip_count] = Frame(width, height)
 
-            # Once either is 1 large, we have no more mipmaps.
-            # Create the frame first, so we still create the final 1-large frame.
-            if width <= 1 or height <= 1:
+            # Once both are 1 large, we have no more mipmaps. For non-square textures,
+            # the smaller dimension stays at 1 while the other continues to shrink.
+            # Create the frame first, so we still create the final 1x1 frame.
+            if width <= 1 and height <= 1:
                 break
 
-            width >>= 1
-            height >>= 1
+            width = max(width >> 1, 1)
+            height = max(height >> 1, 1)
         self.mipmap_count = mip_count
 
     @classmethod
